@@ -523,8 +523,10 @@ def forall_form(ctx, func):
                 return (a.args[1], a.args[0].args.args[0].arg, a.args[0].body,
                         inner_pol, last)
             if isinstance(a, (ast.GeneratorExp, ast.ListComp)) and len(a.generators) == 1 \
-                    and not a.generators[0].ifs and isinstance(a.generators[0].target, ast.Name):
-                return (a.generators[0].iter, a.generators[0].target.id, a.elt,
+                    and not a.generators[0].ifs:
+                tg = a.generators[0].target
+                return (a.generators[0].iter,
+                        tg.id if isinstance(tg, ast.Name) else text(tg), a.elt,
                         inner_pol, last)
         return None
     if len(body) == 2 and isinstance(body[0], ast.For) and not body[0].orelse and \
@@ -806,14 +808,14 @@ def dnf(test, pol=True, limit=64):
     return [frozenset([(text(test).replace(" ", ""), pol)])]
 
 
-def cdnf(ctx, func, test, pol=True, limit=64):
-    """dnf() over canonical atoms (catom, no inlining): a list of frozensets
-    of atoms, None beyond `limit` disjuncts."""
+def cdnf(ctx, func, test, pol=True, limit=64, inline_=False):
+    """dnf() over canonical atoms (catom; temporaries inlined only on
+    request): a list of frozensets of atoms, None beyond `limit` disjuncts."""
     if isinstance(test, ast.UnaryOp) and isinstance(test.op, ast.Not):
-        return cdnf(ctx, func, test.operand, not pol, limit)
+        return cdnf(ctx, func, test.operand, not pol, limit, inline_)
     if isinstance(test, ast.BoolOp):
         is_and = isinstance(test.op, ast.And) == pol
-        parts = [cdnf(ctx, func, v, pol, limit) for v in test.values]
+        parts = [cdnf(ctx, func, v, pol, limit, inline_) for v in test.values]
         if any(p is None for p in parts):
             return None
         if not is_and:
@@ -825,16 +827,16 @@ def cdnf(ctx, func, test, pol=True, limit=64):
                 if len(out) > limit:
                     return None
         return out if len(out) <= limit else None
-    return [frozenset([catom(ctx, func, test, pol, False)])]
+    return [frozenset([catom(ctx, func, test, pol, inline_)])]
 
 
-def guard_dnf(ctx, func, stmt, stop=None, asserts=False, limit=64):
+def guard_dnf(ctx, func, stmt, stop=None, asserts=False, limit=64, inline_=False):
     """The condition under which `stmt` runs (structural guards up to
     `stop`), in DNF over canonical atoms: list of frozensets, or None."""
     from .cfg import guards as _guards
     out = [frozenset()]
     for t, pol in _guards(stmt, stop=stop, asserts=asserts):
-        d = cdnf(ctx, func, t, pol, limit)
+        d = cdnf(ctx, func, t, pol, limit, inline_)
         if d is None:
             return None
         out = [a | b for a in out for b in d]
@@ -987,3 +989,96 @@ def adjacent(a, b):
     if a not in blk or b not in blk:
         return False
     return abs(blk.index(a) - blk.index(b)) == 1
+
+
+def _pblock(n):
+    from .cfg import parent_block
+    return parent_block(n)
+
+
+def net_after(stmt, var):
+    """Net constant change of the integer variable `var` on every way from
+    the end of `stmt` to the end of the current round of the enclosing loop
+    (`continue` included; ways that leave the loop do not count): a set of
+    ints, with '?' for a change that is not `var += k` / `var -= k`.  None
+    when `stmt` is in no loop."""
+    def block(stmts, start):
+        """{delta} of the ways that fall out of the block, {delta} of the ways
+        that end the round inside it."""
+        live, ended = set(start), set()
+        for st in stmts:
+            if not live:
+                break
+            if isinstance(st, ast.AugAssign) and text(st.target) == var:
+                k = st.value.value if isinstance(st.value, ast.Constant) and \
+                    isinstance(st.value.value, int) else None
+                sign = 1 if isinstance(st.op, ast.Add) else -1 if isinstance(st.op, ast.Sub) else None
+                live = {"?" if (k is None or sign is None or x == "?") else x + sign * k
+                        for x in live}
+            elif isinstance(st, ast.Assign) and any(
+                    isinstance(x, ast.Name) and x.id == var
+                    for t in st.targets for x in ast.walk(t)):
+                live = {"?"}
+            elif isinstance(st, ast.Continue):
+                ended |= live
+                live = set()
+            elif isinstance(st, (ast.Break, ast.Return, ast.Raise)):
+                live = set()
+            elif isinstance(st, ast.If):
+                l1, e1 = block(st.body, live)
+                l2, e2 = block(st.orelse, live)
+                live, ended = l1 | l2, ended | e1 | e2
+            elif isinstance(st, (ast.For, ast.While)):
+                if any(isinstance(x, ast.Name) and x.id == var and
+                       isinstance(x.ctx, ast.Store) for x in ast.walk(st)):
+                    live = {"?"}
+            elif isinstance(st, (ast.With, ast.Try)):
+                l1, e1 = block(st.body, live)
+                live, ended = l1, ended | e1
+                for h in getattr(st, "handlers", []):
+                    l2, e2 = block(h.body, {"?"} if any(
+                        isinstance(x, ast.Name) and x.id == var and
+                        isinstance(x.ctx, ast.Store) for b in st.body for x in ast.walk(b))
+                        else start)
+                    live, ended = live | l2, ended | e2
+                for fld in ("orelse", "finalbody"):
+                    sub = getattr(st, fld, None)
+                    if sub:
+                        live, e1 = block(sub, live)
+                        ended |= e1
+        return live, ended
+    live, ended = {0}, set()
+    n = stmt
+    while True:
+        pb = _pblock(n)
+        if pb is None:
+            return None
+        blk, idx, parent, field = pb
+        live, e = block(blk[idx + 1:], live)
+        ended |= e
+        if isinstance(parent, (ast.For, ast.While)) and field == "body":
+            return live | ended
+        if isinstance(parent, (ast.FunctionDef, ast.AsyncFunctionDef, ast.Lambda)) or \
+                not isinstance(parent, (ast.stmt, ast.ExceptHandler)):
+            return None
+        if isinstance(parent, ast.ExceptHandler):
+            parent = parent._parent
+        n = parent
+
+
+def ifexp_as_bool(e):
+    """A copy of a boolean expression in which every conditional expression
+    `A if T else B` reads `(T and A) or (not T and B)` (the same truth value),
+    so that dnf()/cdnf() see its structure."""
+    from .symcase import clone
+
+    class X(ast.NodeTransformer):
+        def visit_IfExp(self, n):
+            self.generic_visit(n)
+            new = ast.BoolOp(op=ast.Or(), values=[
+                ast.BoolOp(op=ast.And(), values=[clone(n.test), n.body]),
+                ast.BoolOp(op=ast.And(), values=[
+                    ast.UnaryOp(op=ast.Not(), operand=clone(n.test)), n.orelse])])
+            return ast.fix_missing_locations(ast.copy_location(new, n))
+    return X().visit(clone(e))
+
